@@ -93,7 +93,7 @@ func regCmd(args []string) error {
 		if strings.HasPrefix(strings.TrimSpace(sc.Stack), "http") && env.singlePost {
 			srvURL = env.serverURL
 		}
-		w := &world{serverURL: srvURL, cat: cat, top: top, writers: map[string]BlobWriterT{}, ids: map[string]string{}, out: enc, rec: rec, quiesce: env.quiesce, setOp: env.curOp.Store}
+		w := &world{serverURL: srvURL, cat: cat, top: top, writers: map[string]BlobWriterT{}, ids: map[string]string{}, out: enc, rec: rec, quiesce: env.quiesce, setOp: env.curOp.Store, resetConns: env.resetConns}
 		if *snap {
 			for _, m := range env.mems {
 				w.snapAll = append(w.snapAll, m)
